@@ -79,7 +79,7 @@ type Case struct {
 
 var editKinds = []string{"drop", "drop", "dropsig", "dup", "reproof", "wrongblock", "wrongpayload", "addnonmember", "addnonmember",
 	"outofrange", "votes", "flip", "stealidx", "agg", "containerri", "hdrth", "hdrth", "proposer", "proposer", "trim", "trim", "trim",
-	"certhdrth", "swapstep", "atk-valth", "atk-propth", "atk-certth", "atk-outsiders", "atk-decoyset"}
+	"certhdrth", "swapstep", "atk-valth", "atk-propth", "atk-certth", "atk-outsiders", "atk-decoyset", "atk-number-wrap"}
 
 func genCase(t *rapid.T) Case {
 	c := Case{Params: rapid.IntRange(0, 2).Draw(t, "params"), Seed: rapid.Uint8().Draw(t, "seed")}
@@ -203,6 +203,7 @@ type world struct {
 	subUsers uint32
 	priority common.Hash
 	propNote string
+	wrapK    int       // > 0: the header's number is wrapK * 2^64 (its low 64 bits are those of the genesis block's number)
 	hdrTh    [3]uint64 // thresholds written into the header's consensus data
 	certHdrT uint64    // CertValThreshold written into the certificate look-back header
 	commit   *voteList
@@ -535,6 +536,19 @@ func (w *world) applyEdit(e Edit, hashOf func() common.Hash) string {
 			}
 		}
 		return "edit:atk-outsiders"
+	case "atk-number-wrap":
+		// a block whose number is a multiple of 2^64, without any vote: no genesis block, whatever its low bits say
+		w.wrapK = 1 + e.A%3
+		for _, ll := range []*voteList{w.commit, w.cert} {
+			if ll != nil {
+				ll.entries, ll.sigs = nil, nil
+			}
+		}
+		if e.B&1 == 1 {
+			w.proposer, w.propKey = -1, 40+e.B%3
+			w.propNote = "proposer key is not a validator"
+		}
+		return "edit:atk-number-wrap"
 	case "atk-decoyset":
 		// proposer credential and precommits of the validators as they stand at ANOTHER height (the decoy set
 		// recorded in every header but the stake look-back): ranks, stakes and the total differ
@@ -785,6 +799,10 @@ func runCase(c Case) kit.Result {
 		cd := &ucon.BlockConsensusData{Round: new(big.Int).SetUint64(w.number), RoundIndex: w.consRI, Seed: seedCon,
 			SortitionProof: w.propCred.Proof, Priority: w.priority, SubUsers: w.subUsers,
 			ProposerThreshold: w.hdrTh[0], ValidatorThreshold: w.hdrTh[1], CertValThreshold: w.hdrTh[2]}
+		if w.wrapK > 0 {
+			h.Number = new(big.Int).Lsh(big.NewInt(int64(w.wrapK)), 64)
+			cd.Round = new(big.Int).Set(h.Number)
+		}
 		if err := uk.SetConsensus(h, cd, w.propKey); err != nil {
 			panic(err)
 		}
@@ -861,7 +879,7 @@ func runCase(c Case) kit.Result {
 		} else {
 			err = srv.VerifySideChainHeader(&cp, seedHeader, set.Reader, nil, nil, blk, []*types.Block{parentBlock})
 		}
-		if c.ViaChain {
+		if c.ViaChain || w.wrapK > 0 {
 			// second entry: the header-chain path. Acceptance by EITHER path is an acceptance.
 			if c.Known {
 				// the node already holds a block with this hash at this height (votes and seal are not hashed)
@@ -997,6 +1015,9 @@ func runCase(c Case) kit.Result {
 
 // classify attributes an accepted must-reject header to a root cause.
 func (w *world) classify(reasons []string) string {
+	if w.wrapK > 0 {
+		return "number-wraps-to-genesis"
+	}
 	// only thresholds the verifier reads for THIS header matter (its own CertValThreshold is for later look-backs)
 	if w.hdrTh[0] != w.trip[0] || w.hdrTh[1] != w.trip[1] || (w.c.Cert && w.certHdrT != w.trip[2]) {
 		return "author-threshold"
